@@ -792,6 +792,11 @@ def gen_mnet_case(r, maxn, exact):
     if exact:
         g = DGen(r)
         toks, ps, psa = g.gen(odim, r.choice([0, 1, 1]), False, False)
+        if r.chance(1, 12):
+            # a base kernel WITHOUT derivatives (ProductKernel): the ModelKernel must not claim a parameter derivative
+            small = [(["lin"], []), (["poly", "2", "1"], ["off"]), (["mono", "2"], []), (["poly", "1", "1:-1"], ["off"])]     # values stay below 2^40
+            (l1, p1), (l2, p2) = r.choice(small), r.choice(small)
+            toks, ps, psa = ["prod", "2"] + l1 + l2, p1 + p2, p1 + p2; g.kinds |= {"prod", "lin", "poly"}
         kinds = set(g.kinds); kslots = ps
         pts = [[r.range(-2, 2) for _ in range(dim)] for _ in range(n)]
     else:
